@@ -87,12 +87,13 @@ Cand1(n) == UNION {{X(s, t, 1, g) : t \in Tuples1(s, n), g \in Guards} \cup {X(s
 GF == [k |-> "ifdef", tag |-> "F"]
 GN == [k |-> "ifndef", tag |-> "F"]
 Fam1(n) == {<<c>> : c \in Cand(n)} \cup {<<>>}
-Fam2(n) == {<<c, d>> : c, d \in Cand1(n)} \ {<<c, d>> : c \in Cand1(n), d \in {e \in Cand1(n) : e.sec # c.sec}}      \* two in one section
+Fam2(n) == {p \in (Cand1(n) \X Cand1(n)) : p[1].sec = p[2].sec}      \* two in one section (also twice the same)
 Fam3(n) == UNION {{<<X("bonds", t, 1, g), d>>, <<d, X("bonds", t, 1, g)>>} :
                      t \in {u \in Tuples1("bonds", n) : u = <<2, 1>>}, g \in {GF, GN}, d \in {e \in Cand1(n) : e.sec # "bonds" /\ e.gtag # "G"}}
-Fam4(n) == UNION {{<<X(s, t, 1, NoGuard), X(s, u, 1, GF), X(s, w, 1, GN)>>, <<X(s, w, 1, GN), X(s, u, 2, GF), X(s, t, 1, NoGuard)>>,
-                   <<X(s, u, 1, GF), X(s, t, 1, [k |-> "ifdef", tag |-> "G"]), X(s, w, 2, GF)>>} :
-                     t, u, w \in Tuples1(s, n), s \in {"bonds", "angles", "dihedrals", "constraints", "exclusions"}}
+Fam4S(s, n) == UNION {{<<X(s, t, 1, NoGuard), X(s, u, 1, GF), X(s, w, 1, GN)>>, <<X(s, w, 1, GN), X(s, u, 2, GF), X(s, t, 1, NoGuard)>>,
+                       <<X(s, u, 1, GF), X(s, t, 1, [k |-> "ifdef", tag |-> "G"]), X(s, w, 2, GF)>>} :
+                         t \in Tuples1(s, n), u \in Tuples1(s, n), w \in Tuples1(s, n)}
+Fam4(n) == UNION {Fam4S(s, n) : s \in {"bonds", "angles", "dihedrals", "constraints", "exclusions"}}
 
 (* ---------------- molecules ---------------- *)
 ResOf(layout, x) == {layout[x.atoms[i]] : i \in DOMAIN x.atoms}
@@ -101,17 +102,17 @@ Linkable(layout, g, x) == LET rs == ResOf(layout, x) IN
     /\ \A r, s \in rs : (r # s /\ {r, s} \in g.re) => {r, s} \in g.ln
     /\ Cardinality(rs) = 2 => rs \in g.ln
     /\ Cardinality(rs) = 3 => Cardinality(g.ln) >= 2
-BackboneOf(layout, g, v) == LET es == SetToSortSeq(g.ln, LAMBDA e, f : (CHOOSE a \in e : \A b \in e : a <= b) * 10 + (CHOOSE a \in e : \A b \in e : a >= b)
-                                                                   < (CHOOSE a \in f : \A b \in f : a <= b) * 10 + (CHOOSE a \in f : \A b \in f : a >= b)) IN
-    [j \in DOMAIN es |-> LET r == CHOOSE a \in es[j] : \A b \in es[j] : a <= b
-                             s == CHOOSE a \in es[j] : \A b \in es[j] : a >= b IN
+Lo(e) == CHOOSE a \in e : \A b \in e : a <= b
+Hi(e) == CHOOSE a \in e : \A b \in e : a >= b
+BackboneOf(layout, g, v) == LET es == SetToSortSeq(g.ln, LAMBDA e, f : Lo(e) * 10 + Hi(e) < Lo(f) * 10 + Hi(f)) IN
+    [j \in DOMAIN es |-> LET r == Lo(es[j]) s == Hi(es[j]) IN
         [sec |-> IF v = 2 THEN "constraints" ELSE "bonds", atoms |-> <<LastAtom(layout, r), FirstAtom(layout, s)>>,
          par |-> IF v = 2 THEN <<"1", "0.47">> ELSE <<"1", "0.47", "1250">>, gk |-> "none", gtag |-> "", comment |-> ""]]
 EdgesOfInter(inter) == {{x.atoms[1], x.atoms[2]} : x \in {y \in ToSet(inter) : y.sec \in {"bonds", "constraints"}}}
 Mk(ln, g, v, xs, backed) == LET layout == ln[1] names == ln[2] k == NRes(layout)
                                 inter == (IF backed THEN BackboneOf(layout, g, v) ELSE <<>>) \o xs IN
     [name |-> "mol", nrexcl |-> Nrexcl(v), atoms |-> MkAtoms(layout, names, v), inter |-> inter,
-     edges |-> EdgesOfInter(inter) \cup {{LastAtom(layout, CHOOSE a \in e : \A b \in e : a <= b), FirstAtom(layout, CHOOSE a \in e : \A b \in e : a >= b)} : e \in g.ln},
+     edges |-> EdgesOfInter(inter) \cup {{LastAtom(layout, Lo(e)), FirstAtom(layout, Hi(e))} : e \in g.ln},
      rnodes |-> {[id |-> r + Off(v), name |-> names[r]] : r \in 1..k},
      redges |-> {{r + Off(v) : r \in e} : e \in g.re}]
 VarOf(xs, n) == 1 + ((Len(xs) + n) % 3)
@@ -132,6 +133,6 @@ MolsDev == FamilyOn({ln \in LayoutNames : Len(ln[1]) = 4 /\ NRes(ln[1]) = 3}, Fa
            \cup FamilyOn({ln \in LayoutNames : Len(ln[1]) = 4 /\ NRes(ln[1]) = 3}, Fam3, GraphsSmall)
 (* finding instances: the same molecules with (a) an atom that has a mass but no charge, (b) a linked residue pair whose only   *)
 (* atom-level edge is not a bond or constraint (made by an angle, a virtual site or an [ edges ] line of the link)              *)
-MolsMassOnly == UNION {UNION {{Mk(ln, g, 4, xs, TRUE) : xs \in Fam1(0)} : g \in GraphsSmall(NRes(ln[1]))} : ln \in LayoutNames}
+MolsMassOnly == UNION {UNION {{Mk(ln, g, 4, xs, TRUE) : xs \in {<<>>}} : g \in GraphsSmall(NRes(ln[1]))} : ln \in LayoutNames}
 MolsUnbacked == UNION {UNION {{Mk(ln, g, 1, xs, FALSE) : xs \in {<<>>}} : g \in {h \in GraphsFor(NRes(ln[1])) : h.ln # {}}} : ln \in LayoutNames}
 =============================================================================
